@@ -178,6 +178,114 @@ int vf_poly_side(const vf_poly *p, LatLng pt, ld band, ld *mind) {
     return res;
 }
 
+/* ---- shapes the star generator never produces: edges along parallels and meridians, and vertices that share their exact
+ * latitude (or longitude) with a cell centre, so that the ray a point-in-polygon test casts from that centre runs through a
+ * vertex or along an edge. */
+static int seg_cross(LatLng a, LatLng b, LatLng c, LatLng d) {
+    ld d1 = ((ld)b.lng - a.lng) * ((ld)c.lat - a.lat) - ((ld)b.lat - a.lat) * ((ld)c.lng - a.lng);
+    ld d2 = ((ld)b.lng - a.lng) * ((ld)d.lat - a.lat) - ((ld)b.lat - a.lat) * ((ld)d.lng - a.lng);
+    ld d3 = ((ld)d.lng - c.lng) * ((ld)a.lat - c.lat) - ((ld)d.lat - c.lat) * ((ld)a.lng - c.lng);
+    ld d4 = ((ld)d.lng - c.lng) * ((ld)b.lat - c.lat) - ((ld)d.lat - c.lat) * ((ld)b.lng - c.lng);
+    return ((d1 > 0) != (d2 > 0) || d1 == 0 || d2 == 0) && ((d3 > 0) != (d4 > 0) || d3 == 0 || d4 == 0); /* touching counts as crossing */
+}
+static int loop_simple(const LatLng *v, int n) {
+    for (int i = 0; i < n; i++)
+        for (int j = i + 1; j < n; j++) {
+            if (j == i + 1 || (i == 0 && j == n - 1)) { /* adjacent edges share a vertex: must not be degenerate */
+                if (v[i].lat == v[(i + 1) % n].lat && v[i].lng == v[(i + 1) % n].lng) return 0;
+                continue;
+            }
+            if (seg_cross(v[i], v[(i + 1) % n], v[j], v[(j + 1) % n])) return 0;
+        }
+    return 1;
+}
+static void poly_finish(vf_poly *p) {
+    double minlng = 1e9, maxlng = -1e9, minlat = 1e9, maxlat = -1e9;
+    for (int i = 0; i < p->n; i++) {
+        LatLng g = p->outer_u[i];
+        p->outer_w[i].lat = g.lat;
+        p->outer_w[i].lng = wrap_lng(g.lng);
+        if (g.lng < minlng) minlng = g.lng;
+        if (g.lng > maxlng) maxlng = g.lng;
+        if (g.lat < minlat) minlat = g.lat;
+        if (g.lat > maxlat) maxlat = g.lat;
+    }
+    p->crosses_antimeridian = (maxlng > M_PI || minlng < -M_PI);
+    p->bbox_u[0] = minlat, p->bbox_u[1] = maxlat, p->bbox_u[2] = minlng, p->bbox_u[3] = maxlng;
+    for (int h = 0; h < p->nholes; h++) {
+        for (int i = 0; i < p->hn[h]; i++) {
+            p->hole_w[h][i].lat = p->hole_u[h][i].lat;
+            p->hole_w[h][i].lng = wrap_lng(p->hole_u[h][i].lng);
+        }
+        p->holes[h].numVerts = p->hn[h];
+        p->holes[h].verts = p->hole_w[h];
+    }
+    p->gp.geoloop.numVerts = p->n;
+    p->gp.geoloop.verts = p->outer_w;
+    p->gp.numHoles = p->nholes;
+    p->gp.holes = p->nholes ? p->holes : NULL;
+}
+/* axis-aligned rectangle or L-shape with up to 3 axis-aligned rectangular holes (disjoint, strictly inside, by construction) */
+static int poly_axis(vf_rng *r, const vf_poly_opts *o, vf_poly *p) {
+    memset(p, 0, sizeof *p);
+    double hy = o->radius * (o->aspect > 0 ? (o->aspect < 0.02 ? 0.02 : o->aspect) : 1.0), hx = o->radius / cos(o->lat0);
+    if (o->lat0 + hy > 1.48 || o->lat0 - hy < -1.48 || 2 * hx >= 3.0) return 0;
+    int lshape = (int)vf_below(r, 2);
+    double x0 = o->lng0 - hx, x2 = o->lng0 + hx, y0 = o->lat0 - hy, y2 = o->lat0 + hy;
+    double xm = o->lng0 + hx * (0.1 + 0.5 * vf_unit(r)), ym = o->lat0 + hy * (0.1 + 0.5 * vf_unit(r));
+    p->n = lshape ? 6 : 4;
+    p->outer_u = malloc(6 * sizeof(LatLng));
+    p->outer_w = malloc(6 * sizeof(LatLng));
+    if (lshape) {
+        LatLng v[6] = {{y0, x0}, {y0, x2}, {ym, x2}, {ym, xm}, {y2, xm}, {y2, x0}};
+        memcpy(p->outer_u, v, sizeof v);
+    } else {
+        LatLng v[4] = {{y0, x0}, {y0, x2}, {y2, x2}, {y2, x0}};
+        memcpy(p->outer_u, v, sizeof v);
+        xm = x2, ym = y2;
+    }
+    /* holes live in the block [x0,xm] x [y0,ym], one per quadrant of that block */
+    p->nholes = o->nholes > 3 ? 3 : o->nholes;
+    for (int h = 0; h < p->nholes; h++) {
+        double bx0 = x0 + (h & 1) * (xm - x0) / 2, bx1 = bx0 + (xm - x0) / 2, by0 = y0 + (h >> 1) * (ym - y0) / 2, by1 = by0 + (ym - y0) / 2;
+        double mx = (bx1 - bx0) * (0.2 + 0.2 * vf_unit(r)), my = (by1 - by0) * (0.2 + 0.2 * vf_unit(r));
+        LatLng v[4] = {{by0 + my, bx0 + mx}, {by0 + my, bx1 - mx}, {by1 - my, bx1 - mx}, {by1 - my, bx0 + mx}};
+        p->hn[h] = 4;
+        p->hole_u[h] = malloc(4 * sizeof(LatLng));
+        p->hole_w[h] = malloc(4 * sizeof(LatLng));
+        for (int i = 0; i < 4; i++) p->hole_u[h][i] = v[o->holes_cw ? 3 - i : i];
+    }
+    poly_finish(p);
+    return 1;
+}
+/* move vertices of the outer loop onto the exact latitude (sometimes longitude) of the centre of the cell they lie in; the
+ * result is kept only if the loop is still simple and every hole is still strictly inside it */
+static void poly_snap(vf_rng *r, vf_poly *p, int res, double width) {
+    LatLng *save = malloc((size_t)p->n * sizeof(LatLng));
+    memcpy(save, p->outer_u, (size_t)p->n * sizeof(LatLng));
+    for (int i = 0; i < p->n; i++) {
+        if (vf_below(r, 3) == 0) continue;
+        H3Index h;
+        LatLng c, w = {p->outer_u[i].lat, wrap_lng(p->outer_u[i].lng)};
+        if (latLngToCell(&w, res, &h) || cellToLatLng(h, &c)) continue;
+        if (vf_below(r, 4)) p->outer_u[i].lat = c.lat;
+        else {
+            double dl = c.lng - w.lng;
+            if (fabs(dl) < 1.0) p->outer_u[i].lng += dl;
+        }
+    }
+    int ok = loop_simple(p->outer_u, p->n);
+    for (int h = 0; h < p->nholes && ok; h++)
+        for (int i = 0; i < p->hn[h] && ok; i++)
+            if (loop_side(p->outer_u, p->n, p->hole_u[h][i].lat, p->hole_u[h][i].lng, 0.25L * width, NULL) != 1) ok = 0;
+    for (int i = 0; i < p->n && ok; i++)
+        if (fabs(p->outer_u[i].lat) > 1.48) ok = 0;
+    if (!ok) memcpy(p->outer_u, save, (size_t)p->n * sizeof(LatLng));
+    free(save);
+    poly_finish(p);
+    if (p->bbox_u[3] - p->bbox_u[2] >= 3.0) p->n = 0; /* cannot happen for a move of less than a cell; guarded anyway */
+}
+
 /* the standard polygon case of C07/C15: everything derived from one 64-bit seed (tier independent) */
 /* build the polygon of a case from its seed */
 int vf_poly_case(uint64_t seed, vf_poly *P, int *res_out, char *desc, size_t dlen) {
@@ -214,9 +322,23 @@ int vf_poly_case(uint64_t seed, vf_poly *P, int *res_out, char *desc, size_t dle
     o.nholes = vf_below(&r, 3) == 0 ? 1 + (int)vf_below(&r, 3) : 0;
     o.holes_cw = (int)vf_below(&r, 2);
     o.hole_scale = 0.5 + 1.5 * vf_unit(&r);
-    if (!vf_poly_gen(&r, &o, P)) return 0;
+    /* seeds ending in binary 110 get one of the two special shapes (the listed witnesses of repaired defects end otherwise) */
+    const char *shape = "";
+    if ((seed & 7) == 6 && !(seed >> 3 & 1)) {
+        if (!poly_axis(&r, &o, P)) return 0;
+        shape = "axis-aligned, ";
+    } else {
+        if (!vf_poly_gen(&r, &o, P)) return 0;
+        if ((seed & 7) == 6 && o.radius > 1.5 * w) {
+            poly_snap(&r, P, res, w);
+            if (!P->n) return 0;
+            shape = "vertices snapped to cell-centre latitudes/longitudes, ";
+        }
+    }
     *res_out = res;
-    snprintf(desc, dlen, "res %d, %d vertices, %d hole(s), size %.2f cell widths, aspect %.4f, %s%s centre (%.4f,%.4f)", res, P->n, P->nholes, o.radius / w, o.aspect,
+    snprintf(desc, dlen, "%sres %d,", shape, res);
+    dlen -= strlen(desc), desc += strlen(desc);
+    snprintf(desc, dlen, " %d vertices, %d hole(s), size %.2f cell widths, aspect %.4f, %s%s centre (%.4f,%.4f)", P->n, P->nholes, o.radius / w, o.aspect,
              P->crosses_antimeridian ? "crosses the antimeridian, " : "", place == 0 ? "around a pentagon," : "", o.lat0, o.lng0);
     return 1;
 }
